@@ -115,6 +115,33 @@ func runFS(in *bufio.Scanner, w *bufio.Writer) {
 				}
 				fmt.Fprintf(w, "< ret %s\n", vOk(err))
 			})
+		case "h":
+			// a start whose header cannot be written (a header string longer than the format's 255 bytes):
+			// StartRecording must fail cleanly and the recorder must stay usable
+			r := recs[f[1]]
+			bg := cptvframe.NewFrame(cam)
+			vGuard(w, "start", func() {
+				name := r.header.DeviceName
+				r.header.DeviceName = strings.Repeat("x", 300)
+				err := r.StartRecording(bg, 1234)
+				r.header.DeviceName = name
+				if err == nil {
+					register(r)
+				} else {
+					// the failed start used up a name: the file it left behind is that recording's T
+					ents, _ := os.ReadDir(r.outputDir)
+					for _, e := range ents {
+						if n := e.Name(); strings.HasSuffix(n, ".cptv.temp") {
+							st := filepath.Join(r.outputDir, n[:len(n)-len(".cptv.temp")])
+							if _, ok := stampIdx[st]; !ok {
+								stampIdx[st] = nextIdx[r.outputDir]
+								nextIdx[r.outputDir]++
+							}
+						}
+					}
+				}
+				fmt.Fprintf(w, "< ret %s\n", vOk(err))
+			})
 		case "w":
 			r := recs[f[1]]
 			vGuard(w, "write", func() {
@@ -228,6 +255,10 @@ func genFS(r *vRng, tier string, w *bufio.Writer) {
 			if !open[x] {
 				if r.chance(12) {
 					fmt.Fprintf(w, "k %s\n", []string{"zero", "huge", "below", "above"}[r.intn(4)])
+					continue
+				}
+				if r.chance(10) {
+					fmt.Fprintf(w, "h %s\n", x)
 					continue
 				}
 				fmt.Fprintf(w, "s %s\n", x)
